@@ -61,6 +61,10 @@ func cmdVerify(args []string) {
 	}
 	var results []*FuncResult
 	for _, k := range args[1:] {
+		if strings.HasPrefix(k, "lemma:") {
+			results = append(results, eng.verifyLemma(strings.TrimPrefix(k, "lemma:")))
+			continue
+		}
 		if !strings.Contains(k, "/") {
 			k = modulePrefix + "/" + k
 		}
